@@ -126,6 +126,7 @@ func newSocket(proto mangos.ProtocolBase) *socket {
 		reconnMaxTime: defaultReconnMaxTime,
 		maxRxSize:     defaultMaxRxSize,
 	}
+	verifNewSocket(s)
 	return s
 }
 
